@@ -225,3 +225,25 @@ def d4(cx: Cx, ob: Ob) -> None:
             ob.violate(fn.qualname, where(fn, ev.line), "chain builds its accumulator without a delimiter: chain([c]) is not equivalent to c when c uses a non-default delimiter", witness="chain([Converter(recs, delimiter='/')]).expand('a/1') is None", detail="delimiter-dropped")
         elif not (op(d) == "attr" and d[2] == "delimiter" and any(x == convs for x in subterms(d))):
             ob.violate(fn.qualname, where(fn, ev.line), f"chain passes delimiter={show(d)[:50]}, not a delimiter of its inputs", detail="delimiter-wrong")
+
+
+
+@obligation("C09-X1", "OWN (shared with C10): no function that takes a converter stores into, mutates or captures the Record objects of its input - a converter whose records are changed behind its back no longer matches its own lookup tables", floor=6)
+def x1(cx: Cx, ob: Ob) -> None:
+    from .c10 import check_no_aliasing
+
+    check_no_aliasing(cx, ob)
+
+
+@obligation("C09-X2", "state closure (shared with C05): all derived converter state is maintained by _index, lookup tables are never rebound after construction, and no query method writes converter state (no stale caches)", floor=5)
+def x2(cx: Cx, ob: Ob) -> None:
+    from ..rules import state_closure
+
+    state_closure(cx, ob)
+
+
+@obligation("C09-X3", "no memoised derived values (cached_property / lru_cache) on Record, Reference or Converter objects, which are changed in place or copied with updates", floor=3)
+def x3(cx: Cx, ob: Ob) -> None:
+    from ..rules import cached_derivations
+
+    cached_derivations(cx, ob)
